@@ -32,6 +32,14 @@ var corpus = [][]string{
 	{"bw 1 0 c", "go run", "bw 2 -1 l", "waitstarted 2", "go sdw", "join"},
 	// Run returns without any shutdown when the initial workers finish although a late worker runs
 	{"bw 1 0 g", "go run", "bw 2 3 g", "waitstarted 2", "kick 1", "sleep 50", "kick 2", "sd", "join"},
+	// Run called while an asynchronous shutdown is in progress (stopped flag already set) and a started worker returns
+	// late: Run must still wait for it (seeded change C20-r5-3 gave Run the "do not allow restarts" early return of Start)
+	{"bw 1 0 g", "start", "waitstarted 1", "sd", "waitseen 1", "go run", "sleep 30", "kick 1", "join"},
+	{"bw 1 5 g", "bw 2 0 s", "bw 3 -3 g", "start", "waitstarted 1", "waitstarted 3", "go sdw", "waitseen 1", "go run", "sleep 30", "kick 1",
+		"waitseen 3", "go run", "sleep 30", "kick 3", "join"},
+	// ... Run after a completed shutdown and on a daemon shut down before it was ever started: returns at once, starts nothing
+	{"bw 1 0 c", "start", "sdw", "go run", "join", "isrunning", "isstopped"},
+	{"bw 1 0 c", "bw 2 3 g", "sdw", "go run", "join", "isrunning", "workers"},
 	// shapes of daemon_test.go
 	{"mode seq", "bw 0 0 c", "bw 1 1 c", "bw 2 2 c", "bw 3 3 c", "bw 4 4 c", "bw 5 5 c", "start", "workers", "sdw", "seenlog", "isrunning", "isstopped"},
 	{"mode seq", "bw 1 0 c", "bw 1 0 c", "start", "bw 1 0 c", "fin 1", "bw 1 0 c", "workers", "sdw", "seenlog", "bw 1 0 c"},
@@ -172,6 +180,13 @@ func genConc(rng *hx.Rng) []string {
 		}
 		if rng.Chance(1, 2) {
 			s = append(s, "go "+bw(9))
+		}
+		if rng.Chance(1, 3) {
+			// Run called during / after the begin of a shutdown: it must wait for the late-returning started workers
+			if rng.Chance(1, 2) {
+				s = append(s, fmt.Sprintf("sleep %d", rng.Range(1, 4)))
+			}
+			s = append(s, "go run")
 		}
 		if rng.Chance(1, 3) {
 			s = append(s, fmt.Sprintf("sleep %d", rng.Range(1, 8)))
